@@ -255,48 +255,48 @@ pub fn hist(prop: &'static str, kind: Option<Kind>, quick: u64, thorough: u64) -
 
 pub fn engine_of(prop: &str) -> Option<Box<dyn Engine>> {
     Some(match prop {
-        "C01" => Box::new(hist("C01", Some(Kind::Pq), 400_000, 18000000)),
-        "C02" => Box::new(hist("C02", Some(Kind::Dpq), 400_000, 18000000)),
-        "C03" => Box::new(hist("C03", None, 400_000, 18000000)),
-        "C04" => Box::new(hist("C04", None, 400_000, 18000000)),
-        "C06" => Box::new(hist("C06", None, 300_000, 12000000)),
+        "C01" => Box::new(hist("C01", Some(Kind::Pq), 400_000, 8000000)),
+        "C02" => Box::new(hist("C02", Some(Kind::Dpq), 400_000, 8000000)),
+        "C03" => Box::new(hist("C03", None, 400_000, 8000000)),
+        "C04" => Box::new(hist("C04", None, 400_000, 8000000)),
+        "C06" => Box::new(hist("C06", None, 300_000, 5333333)),
         "C08" => Box::new(Multi {
             prop: "C08",
             level: "exploration",
-            parts: vec![(2, Box::new(hist("C08", None, 200_000, 9000000))), (1, Box::new(crate::twin::LatentEngine { prop: "C08", focus: C08, fams: vec![Fam::Retain, Fam::IterMut, Fam::PopIf], quick_runs: 100_000, thorough_runs: 1_500_000 }))],
+            parts: vec![(2, Box::new(hist("C08", None, 200_000, 4000000))), (1, Box::new(crate::twin::LatentEngine { prop: "C08", focus: C08, fams: vec![Fam::Retain, Fam::IterMut, Fam::PopIf], quick_runs: 100_000, thorough_runs: 1_500_000 }))],
         }),
-        "C09" => Box::new(hist("C09", None, 300_000, 12000000)),
+        "C09" => Box::new(hist("C09", None, 300_000, 5333333)),
         "C11" => Box::new(Multi {
             prop: "C11",
             level: "exploration",
-            parts: vec![(2, Box::new(hist("C11", None, 200_000, 9000000))), (1, Box::new(crate::twin::LatentEngine { prop: "C11", focus: C11, fams: vec![Fam::PushInc, Fam::PushDec], quick_runs: 100_000, thorough_runs: 1_500_000 }))],
+            parts: vec![(2, Box::new(hist("C11", None, 200_000, 4000000))), (1, Box::new(crate::twin::LatentEngine { prop: "C11", focus: C11, fams: vec![Fam::PushInc, Fam::PushDec], quick_runs: 100_000, thorough_runs: 1_500_000 }))],
         }),
-        "C12" => Box::new(hist("C12", None, 300_000, 12000000)),
-        "C13" => Box::new(hist("C13", None, 300_000, 12000000)),
+        "C12" => Box::new(hist("C12", None, 300_000, 5333333)),
+        "C13" => Box::new(hist("C13", None, 300_000, 5333333)),
         "C16" => Box::new(Multi {
             prop: "C16",
             level: "exploration",
-            parts: vec![(1, Box::new(hist("C16", None, 150_000, 6000000))), (1, Box::new(crate::twin::FreshEngine { quick_runs: 150_000, thorough_runs: 2_000_000 }))],
+            parts: vec![(1, Box::new(hist("C16", None, 150_000, 2666666))), (1, Box::new(crate::twin::FreshEngine { quick_runs: 150_000, thorough_runs: 2_000_000 }))],
         }),
         "C07" => Box::new(Multi {
             prop: "C07",
             level: "exploration",
-            parts: vec![(1, Box::new(HistEngine { huge_hints: true, ..hist("C07", None, 70_000, 6000000) })), (1, Box::new(crate::diffhint::HintEngine { quick_runs: 70_000, thorough_runs: 2_000_000 })), (1, Box::new(crate::twin::LatentEngine { prop: "C07", focus: C07, fams: vec![Fam::Extend, Fam::Append, Fam::FromVec, Fam::FromIter, Fam::Convert], quick_runs: 70_000, thorough_runs: 1_200_000 }))],
+            parts: vec![(1, Box::new(HistEngine { huge_hints: true, ..hist("C07", None, 70_000, 2666666) })), (1, Box::new(crate::diffhint::HintEngine { quick_runs: 70_000, thorough_runs: 2_000_000 })), (1, Box::new(crate::twin::LatentEngine { prop: "C07", focus: C07, fams: vec![Fam::Extend, Fam::Append, Fam::FromVec, Fam::FromIter, Fam::Convert], quick_runs: 70_000, thorough_runs: 1_200_000 }))],
         }),
         "C15" => Box::new(Multi {
             prop: "C15",
             level: "exploration",
-            parts: vec![(1, Box::new(hist("C15", None, 100_000, 4500000))), (3, Box::new(crate::serdefault::SerdeEngine { quick_runs: 300_000, thorough_runs: 4_500_000 })), (1, Box::new(crate::twin::LatentEngine { prop: "C15", focus: C15, fams: vec![Fam::Serde], quick_runs: 100_000, thorough_runs: 1_500_000 }))],
+            parts: vec![(1, Box::new(hist("C15", None, 100_000, 2000000))), (3, Box::new(crate::serdefault::SerdeEngine { quick_runs: 300_000, thorough_runs: 4_500_000 })), (1, Box::new(crate::twin::LatentEngine { prop: "C15", focus: C15, fams: vec![Fam::Serde], quick_runs: 100_000, thorough_runs: 1_500_000 }))],
         }),
         "C14" => Box::new(Multi {
             prop: "C14",
             level: "exploration",
-            parts: vec![(1, Box::new(hist("C14", None, 100_000, 4500000))), (2, Box::new(crate::twin::CloneEngine { quick_runs: 200_000, thorough_runs: 3_000_000 }))],
+            parts: vec![(1, Box::new(hist("C14", None, 100_000, 2000000))), (2, Box::new(crate::twin::CloneEngine { quick_runs: 200_000, thorough_runs: 3_000_000 }))],
         }),
         "C17" => Box::new(Multi {
             prop: "C17",
             level: "fault_enumeration",
-            parts: vec![(1, Box::new(HistEngine { alloc_faults: true, ..hist("C17", None, 60_000, 4500000) })), (1, Box::new(crate::twin::CapEngine { quick_runs: 60_000, thorough_runs: 1_500_000 }))],
+            parts: vec![(1, Box::new(HistEngine { alloc_faults: true, ..hist("C17", None, 60_000, 2000000) })), (1, Box::new(crate::twin::CapEngine { quick_runs: 60_000, thorough_runs: 1_500_000 }))],
         }),
         "C18" => Box::new(crate::twin::HashEngine { quick_runs: 120_000, thorough_runs: 2_000_000 }),
         "C05" => Box::new(crate::complexity::CxEngine { quick_runs: 1_200, thorough_runs: 6_000 }),
